@@ -531,6 +531,16 @@ fn collect_runtime_types(
                     }
                 }
             }
+            // The vtable struct of a trait used as `dyn` spells out the method signatures,
+            // whether or not an impl (whose functions would mention the same types) exists.
+            for trait_name in collect_dyn_requirements(file).traits.iter() {
+                for (_, params, ret_ty) in trait_method_sigs(goenv, trait_name) {
+                    for ty in params.iter() {
+                        self.collect_type(ty);
+                    }
+                    self.collect_type(&ret_ty);
+                }
+            }
             (self.tuples, self.arrays, self.refs)
         }
 
